@@ -171,6 +171,8 @@ def _run_structural(ctx):
     from .persist import rule_close_writes
     rule_tracked_dump(ctx, r3)
     rule_close_writes(ctx, r3, ("tracked jobs",))
+    from .persist import rule_table_ownership
+    rule_table_ownership(ctx, r3)
     from .evalhelpers import cached_witness, report_witness
     from .schedmodel import cluster_witness
     report_witness(r3, "src/gwf/backends::<X>Ops.get_job_states::scheduler-model", "src/gwf/backends/slurm.py:1", cached_witness(ctx, "cluster", cluster_witness),
